@@ -52,7 +52,46 @@ def cmpNumeric (a b : Bytes) : Ord3 :=
     | _ => 0
   | _, _ => 0
 
-inductive SortKind where | lexAsc | lexDesc | numAsc | numDesc | foldAsc | foldDesc | natural
+/-! ### natural order (github.com/facette/natsort `Compare`, as `NaturalAscendingComparator` uses it) -/
+
+def isDigitB (c : Nat) : Bool := 48 ≤ c && c ≤ 57
+
+/-- `chunkifyRegexp.FindAllString` for `(\d+|\D+)`: maximal runs of ASCII digits / of anything else. -/
+def chunkify : Bytes → List Bytes
+  | [] => []
+  | c :: rest =>
+    match chunkify rest with
+    | (d :: ch) :: more => if isDigitB c == isDigitB d then (c :: d :: ch) :: more else [c] :: (d :: ch) :: more
+    | more => [c] :: more
+
+/-- `strconv.Atoi` on a chunk: a run of digits that fits in int64. -/
+def atoiChunk (c : Bytes) : Option Nat :=
+  if c.isEmpty || !c.all isDigitB then none
+  else
+    let n := c.foldl (fun acc d => acc * 10 + (d - 48)) 0
+    if n ≤ 9223372036854775807 then some n else none
+
+/-- `natsort.Compare` on the chunk lists. -/
+def natLessChunks : List Bytes → List Bytes → Bool
+  | [], _ => false
+  | _ :: _, [] => false
+  | a :: as, b :: bs =>
+    match atoiChunk a, atoiChunk b with
+    | some x, some y =>
+      if x == y then (if as.isEmpty then true else if bs.isEmpty then false else natLessChunks as bs)
+      else x < y
+    | _, _ =>
+      if a == b then (if as.isEmpty then true else if bs.isEmpty then false else natLessChunks as bs)
+      else bytesLt a b
+
+def natLess (a b : Bytes) : Bool := natLessChunks (chunkify a) (chunkify b)
+
+/-- `NaturalAscendingComparator` exactly as written (equal texts tie; an empty text goes last;
+otherwise +1 when `natsort.Compare a b`). -/
+def cmpNaturalAsc (a b : Bytes) : Ord3 :=
+  if a == b then 0 else if a.isEmpty then 1 else if b.isEmpty then -1 else if natLess a b then 1 else -1
+
+inductive SortKind where | lexAsc | lexDesc | numAsc | numDesc | foldAsc | foldDesc | natAsc | natDesc
   deriving DecidableEq, Repr
 
 def cmpOf : SortKind → Bytes → Bytes → Ord3
@@ -62,7 +101,8 @@ def cmpOf : SortKind → Bytes → Bytes → Ord3
   | .numDesc => fun a b => -(cmpNumeric a b)
   | .foldAsc => cmpCaseFold
   | .foldDesc => fun a b => cmpCaseFold b a
-  | .natural => fun _ _ => 0     -- natsort is outside the model: no order claimed
+  | .natAsc => cmpNaturalAsc
+  | .natDesc => fun a b => cmpNaturalAsc b a
 
 /-- Multi-key comparison of two key-value lists, in precedence order. -/
 def multiCmp : List SortKind → List Bytes → List Bytes → Ord3
@@ -126,6 +166,16 @@ def sortRel (fields : List Bytes) (kinds : List SortKind) (input out : List Rec)
     match p.1.2.head?, p.2.2.head? with
     | some a, some b => multiCmp kinds ((keyVals fields a).getD []) ((keyVals fields b).getD []) ≤ 0
     | _, _ => true)
+
+
+/-- Is the multi-key comparator a total preorder on these key-value lists (sign-antisymmetric,
+reflexive, transitive)?  natsort's `Compare` is not one on every set of strings (`1` vs `01`);
+sortedness is only a consequence of "the verb sorts" when it is. -/
+def consistentOn (kinds : List SortKind) (vals : List (List Bytes)) : Bool :=
+  vals.all (fun a => multiCmp kinds a a == 0) &&
+  vals.all (fun a => vals.all fun b => multiCmp kinds a b == -(multiCmp kinds b a)) &&
+  vals.all (fun a => vals.all fun b => vals.all fun c =>
+    !(multiCmp kinds a b ≤ 0 && multiCmp kinds b c ≤ 0) || multiCmp kinds a c ≤ 0)
 
 end Verbs
 end Miller
